@@ -543,13 +543,16 @@ func (r *run) callerLoop(c *callerState, ready chan struct{}) {
 		} else {
 			v, err = r.cl.MakeRequest(req)
 		}
-		r.sc.Done(c.name, showResult(v, err))
+		r.sc.Done(c.name, showResult(sp.token, v, err))
 	}
 }
 
-func showResult(v interface{}, err error) string {
+func showResult(own int64, v interface{}, err error) string {
 	if err != nil {
 		if e, ok := err.(*mtproto.ErrResponseCode); ok {
+			if refserver.IsErrOf(own, e.Code, e.Message) {
+				return "err:" + strconv.FormatInt(own, 10)
+			}
 			return "err:" + strings.TrimPrefix(e.Message, "VERIF_")
 		}
 		return "goerr:" + reflect.TypeOf(err).String()
@@ -603,7 +606,7 @@ func resultBody(sp callSpec) []byte {
 			&objects.FutureSalt{ValidSince: int32(p + 1), ValidUntil: int32(p + 2), Salt: p * 11}}
 		return refserver.VectorObjects(v[:1+int(p%2)])
 	case "err":
-		return refserver.RpcError(int32(400+p%100), "VERIF_"+strconv.FormatInt(p, 10))
+		return refserver.RpcError(refserver.ErrOf(p))
 	}
 	trouble("unknown result kind %q", sp.kind)
 	return nil
